@@ -7,7 +7,7 @@
 ID=$1; V=$2; PKG=$3; FILTER=$4; shift 4
 CHECKS="${@:-$ID}"
 WT=/tmp/seed/$ID; S=$WT/_seed/$V; DEST=/verif/seeded/$ID-$V
-export CARGO_TARGET_DIR=/tmp/seed/target-shared CARGO_NET_OFFLINE=true
+export CARGO_TARGET_DIR=${SEED_TARGET:-/tmp/seed/target-shared} CARGO_NET_OFFLINE=true
 cd $WT || exit 2
 git checkout -q -- . ; git clean -qfd -e _seed >/dev/null
 git apply $S/demo.diff || { echo "demo.diff does not apply"; exit 2; }
